@@ -4,6 +4,7 @@ Nothing under the analysed repository is imported or executed; everything is
 derived from ``ast.parse`` of the source text.
 """
 import ast
+import copy
 import hashlib
 import os
 
@@ -497,6 +498,19 @@ class Program:
             except TypeError:
                 raise _NoFold()
             raise _NoFold()
+        if isinstance(e, (ast.GeneratorExp, ast.ListComp)) and len(e.generators) == 1 and not e.generators[0].ifs \
+                and isinstance(e.generators[0].target, ast.Name) and not e.generators[0].is_async:
+            it = self._fold(module, e.generators[0].iter, hint)
+            if not isinstance(it, (tuple, list)) or len(it) > 4096:
+                raise _NoFold()
+            var = e.generators[0].target.id
+            out = []
+            for x in it:
+                if not isinstance(x, (int, bytes, str)):
+                    raise _NoFold()
+                sub = _SubstName(var, x).visit(copy.deepcopy(e.elt))
+                out.append(self._fold(module, sub, hint))
+            return tuple(out) if isinstance(e, ast.GeneratorExp) else out
         if isinstance(e, ast.Call):
             fn = ast.unparse(e.func)
             if fn == "bytes" and len(e.args) == 1 and not e.keywords:
@@ -513,7 +527,12 @@ class Program:
                 return frozenset(a)
             if fn == "tuple" and len(e.args) == 1:
                 return tuple(self._fold(module, e.args[0], hint))
-            if fn == "range" and 1 <= len(e.args) <= 2:
+            if fn in ("reversed", "list") and len(e.args) == 1 and not e.keywords:
+                a = self._fold(module, e.args[0], hint)
+                if isinstance(a, (tuple, list)):
+                    return tuple(reversed(a)) if fn == "reversed" else list(a)
+                raise _NoFold()
+            if fn == "range" and 1 <= len(e.args) <= 3:
                 args = [self._fold(module, a, hint) for a in e.args]
                 if all(isinstance(a, int) for a in args) and abs(args[-1]) <= 4096:
                     return tuple(range(*args))
@@ -539,6 +558,18 @@ class Program:
     def method(self, cls, name):
         """Method lookup (no inheritance among analysed classes)."""
         return cls.methods.get(name)
+
+
+class _SubstName(ast.NodeTransformer):
+    """replace loads of one comprehension variable by a constant (constant folder only)"""
+
+    def __init__(self, var, value):
+        self.var, self.value = var, value
+
+    def visit_Name(self, n):
+        if n.id == self.var:
+            return ast.copy_location(ast.Constant(value=self.value), n)
+        return n
 
 
 class _NoFold(Exception):
